@@ -2,7 +2,7 @@
 import os
 
 from . import core
-from .rules import stdio, cert, mark, exact, optstore, inval, idx, atomic, own, tokens, idxclass, copy, pair, structfree, buf, div, counter, sentinel, appendinit, verdict, basismap, zerotol, escape, lenclass, djsym, ndet, useb4check, norms, opencheck, shell, esolver, errlost, rescan, certdep, neverset, fmt, defaults, scratch, fullscan, slotleak, floatidx, sensemap, trunc, vtypezero, allockind, intdiv, strscan, localfield, rawidx, argcap, staleptr, condalloc, lpstate, vstattype, alphabet
+from .rules import stdio, cert, mark, exact, optstore, inval, idx, atomic, own, tokens, idxclass, copy, pair, structfree, buf, div, counter, sentinel, appendinit, verdict, basismap, zerotol, escape, lenclass, djsym, ndet, useb4check, norms, opencheck, shell, esolver, errlost, rescan, certdep, neverset, fmt, defaults, scratch, fullscan, slotleak, floatidx, sensemap, trunc, vtypezero, allockind, intdiv, strscan, localfield, rawidx, argcap, staleptr, condalloc, lpstate, vstattype, alphabet, outleak
 from .effects import Effects
 
 FIX = os.path.join(os.path.dirname(os.path.abspath(__file__)), "fixtures")
@@ -355,7 +355,7 @@ PROPS = {
     },
     "C18": {
         "rules": [lambda prog, tier: pair.run(prog, heap=True), lambda prog, tier: structfree.run(prog), lambda prog, tier: structfree.run_nodefree(prog),
-                  lambda prog, tier: slotleak.run(prog)],
+                  lambda prog, tier: slotleak.run(prog), lambda prog, tier: outleak.run(prog, floor=6)],
         "technique": "resource typestate dataflow per function on clang::CFG (set-of-tuples, return-code and parameter-fact correlation, "
                      "allocation-fault and noreturn edges excluded); destructor coverage by ownership inference from release sites",
         "explanation": "Decides two structural clauses of C18 on all paths, including every parse-error and rejected-argument exit: (R-PAIR) "
@@ -510,7 +510,7 @@ PROPS = {
         "rules": [lambda prog, tier: zerotol.run(prog, shared_eff(prog), "factor"),
                   lambda prog, tier: escape.run(prog),
                   lambda prog, tier: idxclass.run(prog, scope_units=("lib_mpq.c", "qsopt_mpq.c"), rule="R-IDXCLASS"),
-                  lambda prog, tier: scratch.run(prog), lambda prog, tier: scratch.run_delay(prog),
+                  lambda prog, tier: scratch.run(prog), lambda prog, tier: scratch.run_delay(prog), lambda prog, tier: scratch.run_pair(prog),
                   lambda prog, tier: staleptr.run(prog, shared_eff(prog)),
                   lambda prog, tier: escape.run_extcopy(prog)],
         "technique": "value-class (zero / non-zero / unknown) fixpoint over GMP-number locations with interprocedural parameter binding and "
@@ -717,7 +717,8 @@ _ADD = {
                          "re-point summaries of pointer fields (bottom-up) + path-sensitive staleness typestate of their local copies",
             "explanation": " (R-SCRATCH) in the sparse kernels no clearing of a scratch mark (lpinfo::iwork) and no update of a dependency counter "
                            "(ur/uc/lr/lc_info::delay) is control-dependent on the value of an exact number: an exact cancellation must not change the "
-                           "structure the next solve relies on. (R-STALEPTR) no local copy of a re-allocatable array pointer of the factorisation "
+                           "structure the next solve relies on. (R-MARKPAIR) every function that sets scratch marks clears them on every path to its return "
+                           "(early exits included). (R-STALEPTR) no local copy of a re-allocatable array pointer of the factorisation "
                            "(urcoef, urindx, ucindx, lcindx ...) is used after a call that may grow the array, unless it was fetched again. (R-EXTORDER(copy)) elements of a work vector in internal column order (tableau row, "
                            "solution vectors) reach the caller's arrays only through structmap[] / rowmap[].",
             "level_text": " R-SCRATCH adds the structural clause that marks and topological counters are value-independent (two seeded LU / tableau "
@@ -735,7 +736,11 @@ _ADD = {
                          "re-allocatable pointer fields (R-STALEPTR); inferred mode-dependent allocation: accesses dominated by the "
                          "selector test (R-CONDALLOC); computed simplex-state fields + unguarded-read summaries: API hand-overs of p->lp "
                          "dominated by the factorok test (R-LPSTATE)"},
-    "C18": {"technique": "; append-slot typestate with error-code / flag correlation; deep-release check of owning records"},
+    "C18": {"technique": "; append-slot typestate with error-code / flag correlation; deep-release check of owning records; allocating-out-parameter "
+                         "summaries + holds/empty typestate of the receiving local with remembered count conditions",
+            "explanation": " (R-OUTLEAK) a local that holds a block received through an allocating out-parameter (directly, through a record field the "
+                           "routine parks the parameter in, or through a callee) is released or handed on before its address is passed to such a "
+                           "parameter again (the singular-column lists across refactorisation rounds)."},
     "C19": {"technique": "; status-value enumeration through switch / if / conditional-expression forms; printf-format census; resource typestate on "
                          "esolver's main; exit-condition analysis of the print loops",
             "explanation": " (R-FMT) no row / column name is used as a format string; (R-PAIR on esolver) the solution file is closed on every path; "
